@@ -25,3 +25,17 @@ Proof.
   - intros H ty r. apply bounded1_is_bounded. apply H.
   - intros H r. apply bounded1_is_bounded. apply (H 0 r).
 Qed.
+
+(** the expected answer [D1] of the interleaving theorems is what the sequential model of file.rs get
+    (Cache/Model.v, any cache configuration) returns for that reference *)
+Lemma D1_is_sequential_answer : forall (prog : ref -> comp) (rank : ref -> nat) (oc sc : bool) (fuel : nat)
+    (r : ref) (o : outcome) (st' : state),
+  acyclic1 prog rank -> (rank r < fuel)%nat ->
+  get (cfg_fixed oc sc) (fun _ => prog) fuel [] 0 r init = (o, st') -> o = D1 prog rank r.
+Proof.
+  intros prog rank oc sc fuel r o st' Hac Hf Hg.
+  rewrite (D1_is_D prog rank 0 r).
+  apply (cache_answers_D (fun _ => prog) (fun _ => []) (fun _ => Ok 0) (fun _ d => Ok d) (fun _ _ d => Ok d)
+                         rank oc sc fuel 0 r st' o); [|exact Hf|exact Hg].
+  apply acyclic1_is_acyclic. exact Hac.
+Qed.
